@@ -35,3 +35,8 @@ long GUEST_PREFIX(g_add3)(long a, int b, unsigned short c)
 {
   return a + b + c + 1000 * LIB_ID;
 }
+
+int GUEST_PREFIX(g_call_b)(int (*cb)(short, double, char*, unsigned long), short s, double d, char* p, unsigned long ul)
+{
+  return cb(s, d, p, ul) + 1;
+}
